@@ -7,7 +7,10 @@ in (0,1] at which the expected false discovery proportion among the accepted tar
 alpha. unsat = the q-values control the FDR exactly (not asymptotically) for this n.
 L2 = obligation 'scored by a model that never saw its spectrum' of check C02 (arbitrary-capacity
 learner); L3 = obligation 'q-values computed on exactly the retained rows' of check C03.
-L1 /\\ L2 /\\ L3 => the statement by the standard exchangeability argument (NOT mechanised)."""
+L4 (decided here): the PSMs that survive the competition at spectrum and peptide level are the
+same for any two label vectors on the same spectra, peptides and scores (ties included), i.e.
+tie-breaking is label-blind.
+L1 /\\ L2 /\\ L3 /\\ L4 => the statement by the standard exchangeability argument (NOT mechanised)."""
 import itertools
 from fractions import Fraction
 
@@ -72,10 +75,58 @@ def sym(ctx, cfg):
     return PathOutcome(props, inputs, None)
 
 
+def sym_label_blind(ctx, cfg):
+    """L4: which PSM survives the competition (spectrum level and every rollup level) does not
+    depend on the target/decoy labels - ties included. Two runs of the real assign_confidence on
+    the same keys, peptides and scores with two independent symbolic label vectors."""
+    import z3
+    import os
+    from symx import vfs, symnp, core
+    from symx.core import SNum, PathOutcome, Unsupported
+    from checks import conflib, c03
+    C, W, U, T, D, Q = conflib.setup()
+    vfs.reset()
+    n = cfg["n"]
+    C.CONFIDENCE_CHUNK_SIZE = int(ctx.fresh_int("confidence_chunk", 1, n + 1)) if cfg.get("sym_chunk") else n + 1
+    U.MERGE_SORT_CHUNK_SIZE = n + 1
+    runs = []
+    syms = []
+    for tag in ("A", "B"):
+        ps, s = conflib.make_collection(ctx, n, 0, "bool", tag=tag)
+        syms.append(s)
+        if tag == "B":
+            for k in ("scan", "mass", "pep", "score"):
+                for a, b in zip(syms[0][k], s[k]):
+                    ctx.assume(a == b)
+        try:
+            c03.run_confidence(ctx, cfg, C, [s], [ps], [symnp.SArray([SNum(z) for z in s["score"]], symnp.float64)], None, True, True, True, [None], dest="/vfs/out" + tag)
+        except Unsupported:
+            raise
+        except Exception as ex:
+            return PathOutcome([], None, None, "exc", note=type(ex).__name__ + ":" + str(ex)[:80])
+        kept = {}
+        for lvl in ("psms", "peptides"):
+            ids = []
+            for kind in ("targets", "decoys"):
+                t = vfs.get("/vfs/out%s/%s.%s" % (tag, kind, lvl))
+                ids += list(t._c["PSMId"]) if t is not None else []
+            kept[lvl] = sorted(ids)
+        runs.append(kept)
+    inputs = dict(collections=conflib.collection_inputs([syms[0]]), labels_b=[core.SBool(z) for z in syms[1]["lab"]], confidence_chunk=C.CONFIDENCE_CHUNK_SIZE)
+    props = [("same_survivors_at_%s_level_whatever_the_labels: %s vs %s" % (lvl, runs[0][lvl], runs[1][lvl]), z3.BoolVal(runs[0][lvl] == runs[1][lvl])) for lvl in ("psms", "peptides")]
+    return PathOutcome(props, inputs, None)
+
+
 def harnesses(tier):
     from symx.runner import Harness
     Q, D = setup()
     hs = []
+    from checks import conflib
+    C = conflib.setup()[0]
+    for name, cfg in ([("L4[n=3]", dict(n=3)), ("L4[n=2,chunk symbolic]", dict(n=2, sym_chunk=True))] if tier == "quick" else [("L4[n=3,chunk symbolic]", dict(n=3, sym_chunk=True)), ("L4[n=4]", dict(n=4))]):
+        hs.append(Harness(name, cfg, sym_label_blind, real="l4", functions=[C.assign_confidence, C._save_sorted_metadata_chunks], bounds=cfg,
+                          stubs=["as C03"], assumptions=["L4: survivors of the competition are independent of the labels (needed for exchangeability of incorrect targets and decoys when scores tie)"],
+                          sample_rate=0.01))
     for n in (range(1, 6) if tier == "quick" else range(1, 8)):
         hs.append(Harness("L1[n=%d]" % n, dict(n=n), sym, real="l1", functions=[Q.tdc, Q._fdr2qvalue, D._update_labels],
                           bounds=dict(n=n, ground_truth_masks=2 ** n - 1, labelings=3 ** n), stubs=["numpy -> symnp"],
@@ -87,6 +138,7 @@ def harnesses(tier):
 
 def evidence_extra(tier):
     return dict(lemmas=dict(L1="this check: exact finite-sample FDR inequality of the real tdc for every ground-truth mask",
+                            L4="this check: the set of PSMs surviving the competition (PSM and peptide level) is the same for any two label vectors, ties included",
                             L2="check C02, obligations fileK_rowR_model_never_saw_its_spectrum / scored_by_its_fold_model (arbitrary-capacity estimator)",
                             L3="check C03, obligations *_qvalue_on_retained_rows and *_is_best_of_its_entity (competition before estimation)",
                             composition="not mechanised"))
@@ -121,4 +173,44 @@ def real_l1(cfg, inp):
     return dict(outputs=None, violation=None)
 
 
-REAL = {"l1": real_l1}
+def real_l4(cfg, inp):
+    import os
+    import tempfile
+    from pathlib import Path
+    import numpy as np
+    import pandas as pd
+    import mokapot
+    from checks import c03
+    C = __import__("sys").modules["mokapot.confidence"]
+    coll = inp["collections"][0]
+    kept = []
+    for labels in (coll["labels"], inp["labels_b"]):
+        with tempfile.TemporaryDirectory(prefix="verif_c04_") as d:
+            os.makedirs(os.path.join(d, "in"))
+            os.makedirs(os.path.join(d, "out"))
+            p, df = c03.real_collection(os.path.join(d, "in"), 0, dict(coll, labels=labels), "bool", ".pin")
+            ps = mokapot.read_pin(p, max_workers=1)[0]
+            old = (C.CONFIDENCE_CHUNK_SIZE, C.peps_from_scores)
+            C.CONFIDENCE_CHUNK_SIZE = int(inp["confidence_chunk"])
+            C.peps_from_scores = lambda s, t, a="qvality": np.full(len(s), 0.5)
+            try:
+                mokapot.assign_confidence([ps], max_workers=1, scores=[np.array([float(x) for x in coll["scores"]])], descs=[True], dest_dir=Path(d) / "out", prefixes=[None], decoys=True)
+            except Exception as ex:
+                return dict(exception=repr(ex), violation=None)
+            finally:
+                C.CONFIDENCE_CHUNK_SIZE, C.peps_from_scores = old
+            k = {}
+            for lvl in ("psms", "peptides"):
+                ids = []
+                for kind in ("targets", "decoys"):
+                    ids += list(pd.read_csv(os.path.join(d, "out", "%s.%s" % (kind, lvl)), sep="\t")["PSMId"])
+                k[lvl] = sorted(ids)
+            kept.append(k)
+    for lvl in ("psms", "peptides"):
+        if kept[0][lvl] != kept[1][lvl]:
+            return dict(violation="%s level: with labels %s the survivors are %s, with labels %s they are %s (same spectra, peptides and scores %s): the competition looks at the labels"
+                        % (lvl, coll["labels"], kept[0][lvl], inp["labels_b"], kept[1][lvl], coll["scores"]))
+    return dict(outputs=None, violation=None)
+
+
+REAL = {"l1": real_l1, "l4": real_l4}
